@@ -139,6 +139,15 @@ def py_edges(edges, nested):
     return e
 
 
+def in_form(edges, form):
+    """The edges written as the specification's *form* says: lists / tuples at each level."""
+    outer = list if form in ("l", "lt") else tuple
+    inner = list if form in ("l", "tl") else tuple
+    if edges and not isinstance(edges[0], (list, tuple)):
+        return outer(edges)                      # one-dimensional edges are written flat
+    return outer(inner(e) for e in edges)
+
+
 def make_values(flow, dim, nested, pairs=None):
     vals = []
     for i, v in enumerate(flow):
@@ -219,7 +228,7 @@ class Worst(object):
 
 def scen_text(rec):
     xs = [v["x"][0] if len(v["x"]) == 1 else tuple(v["x"]) for v in rec["flow"]]
-    e = rec["edges"][0] if len(rec["edges"]) == 1 else rec["edges"]
+    e = in_form(rec["edges"][0] if len(rec["edges"]) == 1 else rec["edges"], rec.get("form", "l"))
     return "edges=%s;x=%s;analysis=%s" % (str(e).replace(" ", ""), str(xs).replace(" ", ""), rec["kind"])
 
 
